@@ -354,7 +354,7 @@ func bufPool() *bufPoolT {
 
 func (r *Runner) bufRandom() [][]byte {
 	var out [][]byte
-	for _, n := range []int{0, 1, 20, 32, 33, 64, 65, 78} {
+	for _, n := range []int{78, 100, 0, 1, 20, 32, 33, 64, 65, 300} { // two values beyond the direct-push limit first (pooled large-push paths)
 		out = append(out, r.bytesN(n))
 	}
 	return out
